@@ -45,6 +45,7 @@ class Engine:
         self.inputs = {}
         self.sticky = None
         self.path_notes = []
+        self.free_choices = []
 
     # ------------------------------------------------------------------ exploration
     def explore(self, fn, on_path=None):
@@ -65,6 +66,7 @@ class Engine:
                 self.sticky = None
                 self.path_notes = []
                 self.assumed = []
+                self.free_choices = []
                 try:
                     r = fn()
                     if self.sticky is not None:
@@ -97,8 +99,13 @@ class Engine:
                     tr.pop()
                 if not tr:
                     break
-                prefix = [[v, a] for v, a in tr]
-                prefix[-1] = [not prefix[-1][0], False]
+                prefix = [list(e) for e in tr]
+                last = prefix[-1]
+                if len(last) == 3:   # free n-ary choice: next alternative
+                    last[0] += 1
+                    last[1] = last[0] < last[2] - 1
+                else:
+                    prefix[-1] = [not last[0], False]
         finally:
             Engine.cur = prev
         return self
@@ -165,7 +172,10 @@ class Engine:
         if self.pos >= self.max_decisions:
             raise Budget("max_decisions on one path")
         if self.pos < len(self.prefix):
-            v, alt = self.prefix[self.pos]
+            ent = self.prefix[self.pos]
+            if len(ent) != 2:
+                raise Unsupported("non-deterministic replay: expected a free choice, got a data decision")
+            v, alt = ent
             self.pos += 1
             self.trace.append([v, alt])
             self.solver.add(cond if v else z3.Not(cond))
@@ -221,6 +231,26 @@ class Engine:
                 raise PathAbort()
             self.model = m
 
+    def choose_free(self, n):
+        """an unconstrained finite-domain symbolic choice (e.g. a scheduling decision): every value is
+        feasible, so no solver query is spent; the decision is part of the path like any other"""
+        if n <= 1:
+            return 0
+        self.stats["decisions"] += 1
+        if self.pos < len(self.prefix):
+            e = self.prefix[self.pos]
+            if len(e) != 3 or e[2] != n:
+                raise Unsupported("non-deterministic replay: free choice arity changed (%r vs %d)" % (e, n))
+            self.pos += 1
+            self.trace.append(list(e))
+            self.free_choices.append(e[0])
+            return e[0]
+        self.pos += 1
+        self.trace.append([0, True, n])
+        self.stats["forks"] += 1
+        self.free_choices.append(0)
+        return 0
+
     def choose(self, n, name="ch"):
         """symbolic choice in range(n), resolved by forking"""
         if n <= 1:
@@ -245,9 +275,10 @@ class Engine:
             neg += [z3.Not(tobool(e)) for e in excl]
         ok, m = self.check(*neg)
         if ok:
-            self.violations.append(
-                dict(label=label, inputs=conc(self.inputs, m), detail=conc(detail, m) if detail is not None else None)
-            )
+            cin = conc(self.inputs, m)
+            if self.free_choices and isinstance(cin, dict):
+                cin["__schedule__"] = list(self.free_choices)
+            self.violations.append(dict(label=label, inputs=cin, detail=conc(detail, m) if detail is not None else None))
         if z3.is_false(c):
             raise PathAbort()
         self.solver.add(c)
@@ -521,3 +552,44 @@ def sym_equal(a, b):
     if isinstance(b, (SymInt, SymBool)):
         return b == a
     return a == b
+
+
+class ReplayEngine(Engine):
+    """runs a harness once with concrete inputs and a recorded list of free (schedule) choices"""
+
+    def __init__(self, choices):
+        Engine.__init__(self)
+        self.choices = list(choices)
+        self.failed = []
+
+    def choose_free(self, n):
+        if n <= 1:
+            return 0
+        v = self.choices.pop(0) if self.choices else 0
+        return v if v < n else 0
+
+    def choose(self, n, name="ch"):
+        raise Unsupported("symbolic data choice during a concrete replay")
+
+    def branch(self, cond):
+        if isinstance(cond, bool):
+            return cond
+        c = z3.simplify(cond)
+        if z3.is_true(c):
+            return True
+        if z3.is_false(c):
+            return False
+        raise Unsupported("symbolic decision during a concrete replay")
+
+    def require(self, cond, label, detail=None, excl=None):
+        if not bool(cond):
+            self.failed.append(label)
+        return True
+
+    def __enter__(self):
+        self._prev = Engine.cur
+        Engine.cur = self
+        return self
+
+    def __exit__(self, *a):
+        Engine.cur = self._prev
